@@ -7,6 +7,8 @@ HARNESS = {
     'block': dict(srcs=['harness/corelab/block.c'] + COMMON),
     'udictlab': dict(srcs=['harness/corelab/udictlab.c'] + COMMON),
     'clocklab': dict(srcs=['harness/corelab/clocklab.c'] + COMMON),
+    'lincheck': dict(srcs=['harness/sched/lincheck.c', 'harness/sched/sched.c'] + COMMON),
+    'refcount': dict(srcs=['harness/sched/refcount.c', 'harness/sched/sched.c', 'harness/common/cumem.c'] + COMMON),
     'picsound': dict(srcs=['harness/corelab/picsound.c', 'harness/common/cumem.c'] + COMMON),
 }
 
@@ -17,6 +19,15 @@ ENGINES = [
                         'structures: after every API call the real object is '
                         'compared with a reference model; ASan/UBSan build'),
 ]
+
+ENGINES.append(dict(
+    name='sched', path='harness/sched',
+    serves_properties=['C06', 'C07', 'C08', 'C09'],
+    kind_free_text='seeded serialising scheduler over the UVERIF_YIELD hooks '
+                   '(one runnable thread at a time, decision string recorded '
+                   'and replayable, deadlock decided on logical state) + '
+                   'history checkers (Wing-Gong linearizability, exactly-once '
+                   'ledgers); free-running ThreadSanitizer runs'))
 
 NOT_CLAIMED = {}
 
@@ -200,5 +211,67 @@ PROPS['C11'] = dict(
              require=['identity.dts=cr+delay', 'identity.pts=dts+delay',
                       'op.rebase_done', 'op.set_rap_ok', 'op.set_rap_refused',
                       'op.dup']),
+    ],
+)
+
+PROPS['C07'] = dict(
+    engine='sched',
+    technique='runtime monitoring: recorded call/return histories of small '
+              'client programs under a seeded serialising scheduler (yield '
+              'point before every atomic and ring-element access), checked '
+              'by a Wing-Gong linearizability search against sequential '
+              'FIFO/LIFO/pool specifications',
+    level_text='Sampled (not exhaustive) exploration of sequentially '
+               'consistent interleavings of 2-3 threads x 1-4 operations on '
+               'capacities 1-3, with pre-rolls bringing the 8/16-bit tags '
+               'next to wrap-around, under three scheduling strategies '
+               '(uniform, PCT, low-preemption); every history is checked for '
+               'linearizability, loss, duplication and invention.',
+    level_note=SAN_NOTE + 'Serialised runs explore sequentially consistent '
+               'interleavings only (uatomic is SEQ_CST); relaxed hardware '
+               'effects are out of reach. Exhaustiveness is not claimed.',
+    rule='case = one client program + one seeded schedule; non-trivial = run '
+         'with more context switches than threads (>= 1 preemption inside an '
+         'operation); distinct = hash of (program, decision string)',
+    assumptions=['a failed push is accepted when stored + slot-holding '
+                 'overlapping operations >= capacity (the statement\'s rule)'],
+    jobs=[
+        dict(name='lincheck', bin='lincheck', variant='plain', quick=240000,
+             thorough=12000000,
+             require=['ring.with_failed_push', 'ring.with_null_pop',
+                      'pool.programs', 'preempt_at.ring_next_read',
+                      'preempt_at.atomic_cas', 'preempt_at.ring_tag_inc']),
+        dict(name='lincheck-asan', bin='lincheck', variant='asan',
+             quick=24000, thorough=1000000),
+    ],
+)
+
+PROPS['C09'] = dict(
+    engine='sched',
+    technique='runtime monitoring: exactly-once destructor / area-release '
+              'ledgers at the client boundary under a seeded serialising '
+              'scheduler (yield before every atomic operation), plus '
+              'free-running ThreadSanitizer runs of the same programs',
+    level_text='Sampled exploration of sequentially consistent interleavings '
+               'of 2-3 threads running use/release/single/dead scripts on one '
+               'urefcount, and dup/splice/free/read scripts on block buffers '
+               'sharing one memory area (counting umem manager: one free per '
+               'area, no early free); free-running runs under TSan add the '
+               'data-race oracle.',
+    level_note=SAN_NOTE + 'Interleavings are sampled, not enumerated; '
+               'sequentially consistent only.',
+    rule='case = one program (scripts per thread) + one seeded schedule; '
+         'non-trivial = more context switches than threads (serialised) / any '
+         'free-running run; distinct = hash of (scripts, decision string)',
+    assumptions=['every release matches an earlier acquisition made while the '
+                 'thread held a reference (the harness enforces it)'],
+    jobs=[
+        dict(name='refcount', bin='refcount', variant='plain', mode='sched',
+             quick=200000, thorough=6000000,
+             require=['refcount.programs', 'shared.programs']),
+        dict(name='refcount-asan', bin='refcount', variant='asan', mode='sched',
+             quick=30000, thorough=600000),
+        dict(name='refcount-tsan', bin='refcount', variant='tsan', mode='free',
+             quick=3000, thorough=100000, workers=4, tsan=True),
     ],
 )
